@@ -1,10 +1,12 @@
 CONSTANTS
   MaxFiles = 2
   Depth2 = FALSE
+  EndInclusiveFix = TRUE
   Emit = TRUE
 INIT Init
 NEXT Next
 INVARIANT Explained
 INVARIANT SmallScope
+INVARIANT NoInclusiveLoss
 INVARIANT EmitTrace
 CHECK_DEADLOCK FALSE
